@@ -342,6 +342,19 @@ impl Built {
     }
 }
 
+thread_local! {
+    /// a version-40 symbol used as destination of `clone_from` (every kind of module far outside any smaller square)
+    static LARGE_SLOT: Box<QRCode> = Box::new(QRBuilder::new("CLONE TARGET").version(Version::V40).ecl(ECL::L).build().expect("v40 symbol"));
+}
+
+/// The same symbol as a value that previously held a larger one: `clone_from` onto a version-40 symbol. `Clone` is
+/// part of the public type, so every consumer (renderers included) must treat it exactly like the original.
+pub fn recycled_copy(q: &QRCode) -> Box<QRCode> {
+    let mut slot = LARGE_SLOT.with(|l| l.clone());
+    QRCode::clone_from(&mut slot, q);
+    slot
+}
+
 /// Build through the public builder. Outer Err = panic message.
 pub fn build(case: &BuildCase) -> Result<Result<Built, BuildErr>, String> {
     let b = case.builder();
